@@ -2,12 +2,15 @@
 environment of the NEW interpreter (the hash seed is fixed at interpreter start; changing os.environ later has no effect).
 Reads one JSON request per line on stdin, answers one JSON line per request on the original stdout.
 
-    {"op": "hello"}                               -> {"hashseed": env value, "randomized": flag, "probe": hash("verif-c06")}
+    {"op": "hello"}                               -> {"hashseed": env value, "randomized": flag, "probe": hash("verif-c06"),
+                                                      "library": directory the sharepoint2text package would be imported from}
     {"op": "sweep", "items": [[id, file, name]..]} -> {"results": [{"id", "in", "d1", "d2", "d3", "mut", "pos", "n"}...]}
           d1 = digest of the FIRST extraction of the document in this process, d2 = digest of a second extraction in the same
           process (fresh BytesIO over the same bytes), mut = the caller's buffer content changed / buffer closed,
           pos = stream position the library left the caller's buffer at (recorded, not judged)
           d3 = digest of a third extraction that is handed the buffer object of the first one again, as the library left it
+          with "once": 1 every document is extracted exactly once (d2 = d3 = d1): the history of the process is then exactly the
+          list of items (used for the fresh-process and the warm-process configurations)
     {"op": "json", "file": f, "name": n[, "reuse": 1]} -> {"json": [to_json() of every result]} | {"exc": type name}
           reuse: extract once, then answer with the extraction that is handed the same buffer object again
 """
@@ -66,9 +69,10 @@ def main():
         op = req.get("op")
         if op == "hello":
             ans = {"hashseed": os.environ.get("PYTHONHASHSEED"), "randomized": int(sys.flags.hash_randomization),
-                   "probe": hash("verif-c06"), "pid": os.getpid()}
+                   "probe": hash("verif-c06"), "pid": os.getpid(), "library": O.library_location()}
         elif op == "sweep":
             results = []
+            once = bool(req.get("once"))
             for ident, path, name in req["items"]:
                 with open(path, "rb") as f:
                     data = f.read()
@@ -76,9 +80,10 @@ def main():
                 try:
                     signal.setitimer(signal.ITIMER_PROF, 120)      # CPU seconds
                     d1, mut1, pos1, n, buf1 = _one(data, name)
-                    d2, mut2, pos2, _, _ = _one(data, name)
-                    d3 = d1
-                    if not mut1:
+                    d2, mut2, d3 = d1, False, d1
+                    if not once:
+                        d2, mut2, pos2, _, _ = _one(data, name)
+                    if not mut1 and not once:
                         d3, mut3, _, _, _ = _one(data, name, buf1)      # the caller hands the SAME buffer in again, as it was left
                         mut2 = mut2 or mut3
                     signal.setitimer(signal.ITIMER_PROF, 0)
